@@ -323,7 +323,22 @@ pub struct BinaryExpr {
 impl fmt::Display for BinaryExpr {
     fn fmt(&self, f: &mut fmt::Formatter) -> fmt::Result {
         // parenthesised: the text is pasted into macro bodies and parsed again
-        write!(f, "({}{}{})", self.left, self.operator, self.right)
+        write!(f, "(")?;
+        self.fmt_chain(f)?;
+        write!(f, ")")
+    }
+}
+
+impl BinaryExpr {
+    /// A left operand that is a chain of the same operator needs no parentheses of its own
+    /// (binary operators associate to the left): a flat sum of hundreds of terms is written
+    /// flat again instead of nested hundreds of levels deep. The right operand keeps its own.
+    fn fmt_chain(&self, f: &mut fmt::Formatter) -> fmt::Result {
+        match &self.left {
+            Expr::Binary(left) if left.operator == self.operator => left.fmt_chain(f)?,
+            left => write!(f, "{}", left)?,
+        }
+        write!(f, "{}{}", self.operator, self.right)
     }
 }
 
